@@ -51,7 +51,7 @@ MUTANTS = [
     # ---- C07
     ("C07", "R07a", "graphtage.py", "        unshared_kvps = []\n", "        unshared_kvps = set()\n", "original defect (set iteration) - append->add"),
     ("C07", "R07a", "printer.py", "return ''.join(sorted(self._marks))", "return ''.join(self._marks)", "original defect"),
-    ("C07", "R07c", "json.py", "        printer.write(json.dumps(node.object))", "        node.object = node.object\n        printer.write(json.dumps(node.object))", "formatter writes a node"),
+    ("C07", "R07c", "json.py", "        with printer.color(Fore.BLUE):\n            self.print(printer, node.key)\n        with printer.bright():\n            printer.write(\": \")", "        node.key.quoted = True\n        with printer.color(Fore.BLUE):\n            self.print(printer, node.key)\n        with printer.bright():\n            printer.write(\": \")", "formatter writes a node"),
     ("C07", "R07c", "tree.py", "                finally:\n                    wrapped_tree_node._parent = parent_before", "                finally:\n                    pass", "parent not restored"),
     # ---- C08
     ("C08", "R08a", "graphtage.py", "            sorted(cls.make_key_value_pair_node(key, value, allow_key_edits=True) for key, value in source_dict.items())", "            list(cls.make_key_value_pair_node(key, value, allow_key_edits=True) for key, value in source_dict.items())", "from_dict no longer sorts"),
@@ -89,13 +89,13 @@ MUTANTS = [
     # ---- C17
     ("C17", "R17a", "bounds.py", "                    biggest_bound.upper_bound < second_biggest_bound.lower_bound or \\", "                    biggest_bound.upper_bound <= second_biggest_bound.lower_bound or \\", "non-strict separation"),
     ("C17", "R17b", "search.py", "        if self._unprocessed is not None:\n            return False\n        best = self.best_match", "        best = self.best_match", "goal_test before all candidates seen"),
-    ("C17", "R17c", "bounds.py", "        return self.upper_bound <= other.lower_bound", "        return self.upper_bound < other.lower_bound", "dominates made strict"),
+    ("C17", "R17c", "bounds.py", "            return self.upper_bound <= other.lower_bound\n\n        \"\"\"\n        return self.upper_bound <= other.lower_bound", "            return self.upper_bound <= other.lower_bound\n\n        \"\"\"\n        return self.upper_bound < other.lower_bound", "dominates made strict"),
     # ---- C18
     ("C18", "R18a", "json.py", "    if isinstance(python_obj, bool):\n        return BoolNode(python_obj)\n    elif isinstance(python_obj, int):\n        return IntegerNode(python_obj)", "    if isinstance(python_obj, int):\n        return IntegerNode(python_obj)\n    elif isinstance(python_obj, bool):\n        return BoolNode(python_obj)", "int tested before bool"),
     ("C18", "R18d", "builder.py", "                                if already_expanding is child:", "                                if already_expanding == child:", "== instead of is"),
     ("C18", "R18b", "graphtage.py", "        return [n.to_obj() for n in self]", "        return [n for n in self]", "ListNode.to_obj returns nodes"),
     # ---- C19
-    ("C19", "R19a", "expressions.py", "    if member.name.startswith('_'):", "    if member.name.startswith('__'):", "only dunder names refused"),
+    ("C19", "R19a", "expressions.py", "    if member.name.startswith('_'):\n        raise ParseError(f\"Cannot read", "    if member.name.startswith('__'):\n        raise ParseError(f\"Cannot read", "only dunder names refused"),
     ("C19", "R19b", "expressions.py", "lambda a, b: get_member(a, b), True, 2, False, (True, False))", "lambda a, b: get_member(a, b), True, 2, False, (True, True))", "member operand expanded"),
     ("C19", "R19c", "expressions.py", "            else:\n                raise KeyError(f'Unknown identifier {token.name}')", "            else:\n                return __builtins__[token.name]", "fall through to builtins"),
     ("C19", "R19d", "expressions.py", "        iter, len, list, slice, sorted, sum, tuple, round\n", "        iter, len, list, slice, sorted, sum, tuple, round, getattr\n", "getattr whitelisted"),
